@@ -9,7 +9,7 @@ from rules.engine.run import run_property
 props = sorted(os.path.basename(p)[:-3] for p in glob.glob(os.path.join(V, 'rules', 'C??.py')))
 patches = []
 for a in sys.argv[1:]:
-    patches += sorted(glob.glob(os.path.join(a, '*.patch.diff'))) if os.path.isdir(a) else [os.path.abspath(a)]
+    patches += [os.path.abspath(x) for x in sorted(glob.glob(os.path.join(a, '*.patch.diff')))] if os.path.isdir(a) else [os.path.abspath(a)]
 out_path = os.path.join(V, 'seeded', 'matrix.json')
 matrix = json.load(open(out_path)) if os.path.exists(out_path) else {}
 for p in patches:
